@@ -185,5 +185,80 @@ def mcZeroAt (start modulo step : Arg α) (n : Nat) : Option Nat :=
   let len := min (start.expand n).length (min (modulo.expand n).length (step.expand n).length)
   ((modulo.expand n).take len).findIdx? (· = 0)
 
+/-! ### `line`, fades, `ones`, `zeros`, `impulse`, `adsr`, `attack` (lazy_synth.py:142-392, 597-621)
+
+A duration is `some dur`, or `none` for the endless case (`dur is None`, or `+inf`).
+`xrange(k)` of a Python int `k` is `List.range k.toNat`.  A `ZeroDivisionError` is raised by the
+slope computations *before the first sample is yielded*, so a failing call yields nothing. -/
+
+/-- the float literal `.5` -/
+def half : α := 1 / (1 + 1)
+
+/-- `xrange(int(x))` as a number of iterations -/
+def pyLen (x : α) : Nat := (pyInt x).toNat
+
+/-- `line(dur, begin, end, finish)` (lines 219-221) -/
+def line (dur begin_ end_ : α) (finish : Bool) : Except String (List α) :=
+  let d := dur - (if finish then 1 else 0)
+  if d = 0 then .error "ZeroDivisionError"
+  else
+    let m := (end_ - begin_) / d
+    .ok ((List.range (pyLen (dur + half))).map fun (i : Nat) => begin_ + ((i : Int) : α) * m)
+
+/-- `fadein(dur) = line(dur)` -/
+def fadein (dur : α) : Except String (List α) := line dur 0 1 false
+/-- `fadeout(dur) = line(dur, 1., 0.)` -/
+def fadeout (dur : α) : Except String (List α) := line dur 1 0 false
+
+/-- `ones(dur)` / `zeros(dur)` with the repeated value `v`; first `n` samples (lines 320-324) -/
+def constGen (v : α) (dur : Option α) (n : Nat) : List α :=
+  match dur with
+  | none => List.replicate n v
+  | some d => (List.replicate (pyLen (half + d)) v).take n
+
+/-- `impulse(dur, one, zero)`; first `n` samples (lines 613-621); the items may be anything -/
+def impulse {β : Type} (dur : Option α) (one zero : β) (n : Nat) : List β :=
+  match dur with
+  | none => (one :: List.replicate (n - 1) zero).take n
+  | some d =>
+    if d < half then []
+    else (one :: List.replicate (pyLen (d - half)) zero).take n
+
+/-- `adsr(dur, a, d, s, r)` (lines 377-391) -/
+def adsr (dur a d s r : α) : Except String (List α) :=
+  if a = 0 ∨ d = 0 ∨ r = 0 then .error "ZeroDivisionError"
+  else
+    let m_a := 1 / a
+    let m_d := (s - 1) / d
+    let m_r := (-s * 1) / r
+    let len_a := pyInt (a + half)
+    let len_d := pyInt (d + half)
+    let len_r := pyInt (r + half)
+    let len_s := pyInt (dur + half) - len_a - len_d - len_r
+    .ok (((List.range len_a.toNat).map fun (i : Nat) => ((i : Int) : α) * m_a)
+      ++ ((List.range len_d.toNat).map fun (i : Nat) => 1 + ((i : Int) : α) * m_d)
+      ++ List.replicate len_s.toNat s
+      ++ ((List.range len_r.toNat).map fun (i : Nat) => s + ((i : Int) : α) * m_r))
+
+/-- `attack(a, d, s)`; `s` a number or a non-empty iterable; first `n` samples (lines 278-300).
+    With an iterable, its first item is taken as the sustain level of the decay line and the
+    remaining items are the sustain. -/
+def attack (a d : α) (s : Arg α) (n : Nat) : Except String (List α) :=
+  let s0? : Option α := match s with
+    | .num x => some x
+    | .strm xs => xs.head?
+  match s0? with
+  | none => .error "RuntimeError"      -- `next(it_s)` on an empty iterable inside the generator (PEP 479)
+  | some s0 =>
+    if a = 0 ∨ d = 0 then .error "ZeroDivisionError"
+    else
+      let m_a := 1 / a
+      let m_d := (s0 - 1) / d
+      let head := ((List.range (pyLen (a + half))).map fun (i : Nat) => ((i : Int) : α) * m_a)
+        ++ ((List.range (pyLen (d + half))).map fun (i : Nat) => 1 + ((i : Int) : α) * m_d)
+      match s with
+      | .num x => .ok ((head ++ List.replicate n x).take n)
+      | .strm xs => .ok ((head ++ xs.tail).take n)
+
 end Arith
 end ALV.C19
